@@ -46,7 +46,7 @@ fn expected13(code: u16, t: &gillham::Table) -> Option<i64> {
 
 pub fn run(a: &Args, r: &mut Report) {
     r.exhaustive = true;
-    r.rule = "exhaustive: 2^16 gray2alt arguments, 2^13 decode_id13 arguments, 2^13 AC codes x DF0/4/16/20, 2^12 ME altitude codes x TC 9..18,20..22, 2^13 identity codes x DF5/DF21/BDS6,1; a case is one (function, code) pair; all are distinct; non-trivial = every pair whose expected value is an altitude/identity rather than 'unavailable' The header fields in front of a 13-bit code (flight status, downlink request, utility message, vertical status, sensitivity level, reply information) take all their values as the code runs.".into();
+    r.rule = "exhaustive: 2^16 gray2alt arguments, 2^13 decode_id13 arguments, 2^13 AC codes x DF0/4/16/20, 2^12 ME altitude codes x TC 9..18,20..22 (single frames, and again as the second report of a two-report history through decode_positions, following a report of the other or of the same parity that carries an ordinary altitude), 2^13 identity codes x DF5/DF21/BDS6,1; a case is one (function, code) pair; all are distinct; non-trivial = every pair whose expected value is an altitude/identity rather than 'unavailable' The header fields in front of a 13-bit code (flight status, downlink request, utility message, vertical status, sensitivity level, reply information) take all their values as the code runs.".into();
     r.assumptions.push("altitude exactly 0 ft is accepted as either 0/Some(0) or unavailable (0 is the 13-bit API's 'unavailable' sentinel)".into());
     r.assumptions.push("AC codes with the M bit set are checked for totality only (metric altitude is reserved in Annex 10)".into());
     let t = gillham::table();
@@ -254,6 +254,54 @@ pub fn run(a: &Args, r: &mut Report) {
                             r.violation(sig, format!("code {code:#06x}: 13-bit field gives {v13} ft, the same code in a 12-bit ME field gives {:?}", got), json!({"fn":"frame","frame":hexs(&f), "frame13": hexs(&frames::df4(0,0,0,code,addr))}));
                         }
                     }
+                }
+            }
+        }
+        // 4b. the same 12-bit code as the user of decode1090 / jet1090 / the Python binding sees it: after the trajectory
+        // decoder has worked on the aircraft's history. The report under test follows (1 s later, same aircraft, same
+        // place) a report of the other parity that carries an ordinary altitude, and also one of its own parity.
+        if !m_bit {
+            use rs1090::decode::cpr::decode_positions;
+            use rs1090::decode::TimedMessage;
+            let c12 = gillham::field13_to_12(code);
+            for (odd, partner_same_parity) in [(false, false), (true, false), ((code & 2) != 0, true)] {
+                let tc = if code % 5 == 0 { 20 } else { 9 + (code % 10) as u8 };
+                let place = |o: bool| crate::oracle::cpr::encode(48.1 + (code % 50) as f64 * 0.01, 11.5, o as u32, false);
+                let partner_odd = if partner_same_parity { odd } else { !odd };
+                let (ep, et) = (place(partner_odd), place(odd));
+                let fp = frames::df17(5, addr, &frames::me_airborne(11, 0, 0, frames::ac12_from_n(1600), 0, partner_odd as u8, ep.yz, ep.xz));
+                let ft = frames::df17(5, addr, &frames::me_airborne(tc, 0, 0, c12, 0, odd as u8, et.yz, et.xz));
+                let mut v: Vec<TimedMessage> = vec![];
+                for (k, f) in [&fp, &ft].iter().enumerate() {
+                    if let Ok(Ok(m)) = guarded(|| Message::try_from(f.as_slice())) {
+                        v.push(TimedMessage { timestamp: 1_700_000_000.0 + k as f64, frame: (*f).clone(), message: Some(m), metadata: vec![], decode_time: None });
+                    }
+                }
+                if v.len() != 2 {
+                    continue; // refusals are judged in step 4
+                }
+                r.evaluations += 1;
+                let rp = json!({"fn":"history","frames":[hexs(&fp), hexs(&ft)]});
+                if let Err((loc, msg)) = guarded(|| decode_positions(&mut v, None, &None)) {
+                    r.violation(&format!("C13:panic:history:{}", short_loc(&loc)), format!("decode_positions panicked: {}", msg_class(&msg)), rp);
+                    continue;
+                }
+                let got = match v[1].message.as_ref().map(|m| &m.df) {
+                    Some(DF::ExtendedSquitterADSB(adsb)) => match &adsb.message {
+                        ME::BDS05(p) => p.alt,
+                        _ => None,
+                    },
+                    _ => None,
+                };
+                let js = v[1].message.as_ref().and_then(|m| serde_json::to_value(m).ok()).and_then(|j| j.get("altitude").and_then(|x| x.as_i64()));
+                let exp = expected13(code, &t);
+                let (ok, class) = judge(exp, got.map(|x| x as i64), got.is_none());
+                let (okj, _) = judge(exp, js, js.is_none());
+                if ok && okj {
+                    r.class(&format!("ac12-after-decode_positions:{class}"));
+                } else {
+                    let kind = if code & 0x10 != 0 { "q" } else { "gillham" };
+                    r.violation(&format!("C13:ac12:{kind}:after-decode_positions"), format!("TC{tc} ALT={c12:#05x} following a report of the {} parity at 39000 ft: the record says {:?} (JSON {:?}), standard: {}", if partner_same_parity {"same"} else {"other"}, got, js, show(exp)), rp);
                 }
             }
         }
